@@ -542,3 +542,29 @@ pub fn clone_check<T>(
         }
     }
 }
+
+// ------------------------------------------------------------------------------------------
+// C10: conversion targets
+
+#[derive(Clone, Copy, Debug, PartialEq, Eq)]
+pub struct W(pub u32);
+impl From<u8> for W { fn from(x: u8) -> W { W(x as u32) } }
+impl From<u16> for W { fn from(x: u16) -> W { W(x as u32) } }
+impl From<u32> for W { fn from(x: u32) -> W { W(x) } }
+
+pub trait Num: Sized {
+    fn to_n(&self) -> u32;
+    fn from_n(n: u32) -> Self;
+}
+impl Num for u8 { fn to_n(&self) -> u32 { *self as u32 } fn from_n(n: u32) -> Self { n as u8 } }
+impl Num for u16 { fn to_n(&self) -> u32 { *self as u32 } fn from_n(n: u32) -> Self { n as u16 } }
+impl Num for u32 { fn to_n(&self) -> u32 { *self } fn from_n(n: u32) -> Self { n } }
+impl Num for W { fn to_n(&self) -> u32 { self.0 } fn from_n(n: u32) -> Self { W(n) } }
+impl Num for &'static str {
+    fn to_n(&self) -> u32 { self.parse().unwrap() }
+    fn from_n(n: u32) -> Self { Box::leak(format!("{}", n).into_boxed_str()) }
+}
+/// custom conversion method: adds a recognisable offset
+pub fn conv_m<A: Num, B: Num>(a: A) -> B {
+    B::from_n(a.to_n() + 100)
+}
